@@ -330,8 +330,11 @@ def run(case, rec):
                       bool(np.allclose(np.asarray(cj.result[1], float), np.asarray(ci.result[1], float), rtol=1e-12, atol=0, equal_nan=True)),
                       "smoothed-wavenumbers", f"wave numbers given as {form} give {np.asarray(cj.result[1]).tolist()[:4]} at "
                       f"{np.asarray(cj.result[0]).tolist()[:4]}, the same numbers as floats give {np.asarray(ci.result[1]).tolist()[:4]}; {label}")
+    # round 7 (C16_20): the flag as programs produce it - the result of a comparison on numpy data is a numpy bool
+    flag = bool(data.size) if int(np.sum(spec["shape"])) % 2 else (np.asarray(data).size > 0) & np.bool_(True)
+    rec.count(f"add_zero_flag_type:{type(flag).__name__}")
     cp = common.monitored(rec, "get_structure_factor", sf, field_of(spec, data), sm, wn, True)
-    c0 = common.monitored(rec, "get_structure_factor", sf, field_of(spec, data), smoothing=sm, wave_numbers=wn, add_zero=True)
+    c0 = common.monitored(rec, "get_structure_factor", sf, field_of(spec, data), smoothing=sm, wave_numbers=wn, add_zero=flag)
     if rec.check(cp.ok and c0.ok, "no-exception", f"positional call raised {cp.exc!r}; {label}"):
         rec.check(all(np.array_equal(np.asarray(x, float), np.asarray(y, float), equal_nan=True) for x, y in zip(cp.result, c0.result)), "add-zero",
                   f"get_structure_factor(field, smoothing, wave_numbers, True) differs from the call with keywords; {label}")
@@ -339,7 +342,7 @@ def run(case, rec):
         k0, s0 = (np.asarray(x, float) for x in c0.result)
         ok = k0.shape == (len(wn) + 1,) and k0[0] == 0 and s0[0] == 1 and np.array_equal(k0[1:], k) and np.allclose(s0[1:], s, rtol=1e-12, atol=0, equal_nan=True)
         rec.check(bool(ok), "add-zero", f"add_zero does not prepend (0, 1) to the same values: k={k0.tolist()} S={s0.tolist()} vs {s.tolist()}; {label}")
-    cr = common.monitored(rec, "get_structure_factor", sf, field_of(spec, data), smoothing=None, add_zero=True)
+    cr = common.monitored(rec, "get_structure_factor", sf, field_of(spec, data), smoothing=None, add_zero=flag)
     if cr.ok:
         k1, s1 = (np.asarray(x, float) for x in cr.result)
         rec.check(k1[0] == 0 and s1[0] == 1 and len(k1) == data.size, "add-zero", f"raw add_zero wrong: {k1[:2]}, {s1[:2]}; {label}")
